@@ -1,11 +1,32 @@
-(* C03 - the reported offset is within half the round-trip delay of the true
-   offset, and the four timestamps combined belong to one exchange.
-   Statements only; proofs live in Proofs/ExchangeProofs.v. *)
-From ST Require Import Base.Ints Model.NtpTime Model.Exchange Model.ExchangeOracle Proofs.ExchangeProofs.
+(* C03 - the offset a client reports is within half the round-trip delay of the
+   true offset (plus nanosecond rounding), and the four timestamps it combines
+   belong to one exchange - for every history of exchanges with a conformant
+   server whose clock offset changes from exchange to exchange, under arbitrary
+   delay, loss, duplication, reordering and staleness of requests and replies.
+
+   Model: Model/Exchange.v (client_ip.go / client_scion.go exchange logic),
+   Model/NtpTime.v (ntp.go); world: Model/ExchangeWorld.v (conformant server by
+   the reply contract of C06, adversarial network, ghost log of exchanges).
+   Statements only; proofs live in Proofs/ExchangeProofs.v.
+
+   Hypotheses, all visible in the statements:
+   - fresh_socket_per_request: only replies to copies of the CURRENT request
+     reach its socket (constructor st_recv / accepts: q_id (e_q e) = q_id q);
+   - client_clock_strict: a reply arrives after its request was stamped, within
+     one NTP era (arrival_ok), so the two stamps differ as Time64 values;
+   - the server never reuses a receive stamp for this client (ex_ok; C06 gives
+     this for the stamps it keeps);
+   - causality: a request copy is received after it was sent, a reply copy
+     arrives after it was stamped (ex_ok, arrival_ok), whatever theta is;
+   - for the numeric bound: all stamps within 2^31 s of the client's clock
+     reading and durations below 2^61 ns (stamps_near). *)
+From ST Require Import Base.Ints Model.NtpTime Model.Exchange Model.ExchangeOracle Model.ExchangeWorld
+  Proofs.NtpTimeProofs Proofs.ExchangeProofs.
 From Coq Require Import ZArith List.
 Import ListNotations.
 Open Scope Z_scope.
 
+(* (a) arithmetic, exact stamps: t1 = t0 + d1 + theta, t2 = t3 - d2 + theta *)
 Theorem C03_arith_exact : forall t0 t3 d1 d2 theta,
   0 <= d1 -> 0 <= d2 ->
   let t1 := t0 + d1 + theta in let t2 := t3 - d2 + theta in
@@ -14,3 +35,92 @@ Theorem C03_arith_exact : forall t0 t3 d1 d2 theta,
   round_trip_delay t0 t1 t2 t3 = d1 + d2.
 Proof. exact arith_exact. Qed.
 Print Assumptions C03_arith_exact.
+
+(* (a') with every stamp up to 1 ns early (the loss of the 2^-32 s wire format):
+   |off - theta| <= (d1+d2)/2 + 1.5 ns, the computed delay is within 2 ns of
+   d1+d2, and the oracle's inequality |off - theta| <= rtd/2 + 3 ns holds *)
+Theorem C03_arith_trunc : forall t0 t1 t2 t3 ctx srx stx crx theta,
+  ctx - 1 <= t0 <= ctx -> srx - 1 <= t1 <= srx -> stx - 1 <= t2 <= stx -> crx - 1 <= t3 <= crx ->
+  let d1 := srx - theta - ctx in let d2 := crx - (stx - theta) in
+  0 <= d1 -> 0 <= d2 ->
+  dur_ok (t1 - t0) -> dur_ok (t2 - t3) -> dur_ok (t3 - t0) -> dur_ok (t2 - t1) ->
+  2 * Z.abs (clock_offset t0 t1 t2 t3 - theta) <= d1 + d2 + 3 /\
+  Z.abs (round_trip_delay t0 t1 t2 t3 - (d1 + d2)) <= 2 /\
+  bound_ok (clock_offset t0 t1 t2 t3) t0 t1 t2 t3 theta = true.
+Proof. exact arith_trunc. Qed.
+Print Assumptions C03_arith_trunc.
+
+(* client_clock_strict as a fact about Time64: two stamps of one era, one later
+   than the other, have different Time64 values *)
+Theorem C03_time64_injective_in_era : forall a b,
+  a < b -> era_of a = era_of b -> time_ok a -> time_ok b -> time64_of_time a <> time64_of_time b.
+Proof. exact t64_inj_era. Qed.
+Print Assumptions C03_time64_injective_in_era.
+
+(* (b) the invariant of every reachable state: while the client's state names
+   this reference, its three stored stamps are the kernel transmit stamp of one
+   request, the server's receive stamp of one handling of a copy of THAT request
+   and the arrival stamp of a copy of THAT handling's reply *)
+Theorem C03_invariant : forall c ref w, ref <> 0 -> reachable c ref w -> Inv c ref w.
+Proof. exact reachable_inv. Qed.
+Print Assumptions C03_invariant.
+
+(* (b) pairing: whenever the client accepts a response, the four stamps it combines
+   belong to ONE exchange: in basic mode the handling e of the current request
+   whose reply just arrived (t0 = kernel transmit stamp, t1, t2 = e's two server
+   stamps, t3 = this arrival); in interleaved mode the previous accepted exchange
+   e' with its arrival c' (t0 = transmit stamp of e's request, t1 = e's receive
+   stamp, t2 = the transmit stamp on record for e's reply, t3 = c'), each through
+   the Time64 format *)
+Theorem C03_pairing : forall c ref w q e crx a,
+  ref <> 0 -> reachable c ref w -> accepts c ref w q e crx a ->
+  paired_basic q e crx a \/ paired_inter w q a.
+Proof. exact pairing. Qed.
+Print Assumptions C03_pairing.
+
+(* the bound, for every accepted response of every run: with theta the clock
+   offset of the server during the exchange the stamps belong to, d1, d2 >= 0 its
+   two network delays: |off - theta| <= (d1+d2)/2 + 1.5 ns, |rtd - (d1+d2)| <= 2 ns,
+   and the property oracle C03_ok1 accepts (offset, stamps) against that exchange *)
+Theorem C03_bound : forall c ref w q e crx a,
+  ref <> 0 -> reachable c ref w -> accepts c ref w q e crx a ->
+  (a_inter a = false ->
+     e_q e = q /\
+     (stamps_near q e (e_stx e) crx -> bound_for a (q_ctx q) (e_srx e) (e_stx e) crx (e_theta e))) /\
+  (a_inter a = true ->
+     exists e' c', w_gprev w = Some (e', c') /\ In e' (w_exs w) /\
+       (stamps_near q e' (e_rtx e') c' ->
+        bound_for a (q_ctx (e_q e')) (e_srx e') (e_rtx e') c' (e_theta e'))).
+Proof. exact accept_bound. Qed.
+Print Assumptions C03_bound.
+
+(* the oracle evaluated on the model: it accepts against any list of scripted
+   exchanges that contains the right one *)
+Theorem C03_model_meets_oracle : forall a ctx srx stx crx theta lo hi xs,
+  bound_for a ctx srx stx crx theta -> lo <= ctx -> crx <= hi ->
+  In {| x_lo0 := lo; x_srx := srx; x_stx := stx; x_theta := theta; x_hi3 := hi |} xs ->
+  C03_ok (a_off a) (a_t0 a) (a_t1 a) (a_t2 a) (a_t3 a) xs = true.
+Proof. exact bound_for_oracle. Qed.
+Print Assumptions C03_model_meets_oracle.
+
+(* the executable receive loop (one retry) accepts only what process_response,
+   the function the world's client runs, accepts *)
+Theorem C03_recv_loop_accept : forall c ref p ireq req now0 ctx1 ds retries a,
+  recv_loop c ref p ireq req now0 ctx1 retries ds = AAccept a ->
+  exists r crx cr, In (DgResp r crx) ds /\
+    process_response c ref p ireq req now0 ctx1 r crx cr = DAccept a.
+Proof. intros c ref p ireq req now0 ctx1 ds. exact (recv_loop_accept c ref p ireq req now0 ctx1 ds). Qed.
+Print Assumptions C03_recv_loop_accept.
+
+(* the hypotheses are satisfiable: a run with a basic exchange followed by an
+   interleaved one, server 7 s ahead, delays 4 us / 1.5 us: the interleaved result
+   is computed from the FIRST exchange and is off by (4 - 1.5)/2 = 1.25 us *)
+Example C03_nonvacuous_run : reachable Ex.c 1 Ex.w5.
+Proof. exact run_reachable. Qed.
+
+Example C03_nonvacuous_accept :
+  exists a, accepts Ex.c 1 Ex.w5 Ex.q1 Ex.e2 (Ex.t + 1000009000) a /\ a_inter a = true /\
+    w_gprev Ex.w5 = Some (Ex.e1, Ex.t + 9000) /\
+    stamps_near Ex.q1 Ex.e1 (e_rtx Ex.e1) (Ex.t + 9000) /\
+    a_off a = 7000001250 /\ a_rtd a = 5500.
+Proof. exact run_accepts_interleaved. Qed.
